@@ -603,6 +603,9 @@ func (w *Worker) runPath(fn *ssa.Function, it workItem, fuel int64, exp *Explore
 			st.FuelOut++
 			st.InconclMsgs[res.Kind+": "+res.Msg]++
 		}
+		if i.collectObserved {
+			st.Observed = append(st.Observed, p.observed...)
+		}
 		if len(st.Samples) < 6 && len(p.inputs) > 0 {
 			st.Samples = append(st.Samples, fmt.Sprintf("%s decisions=%d inputs=%v", res.Kind, len(p.decisions), i.modelSnapshot(p.model)))
 		}
@@ -725,6 +728,7 @@ func mergeStats(dst, src *Stats) {
 	if len(dst.Samples) < 12 {
 		dst.Samples = append(dst.Samples, src.Samples...)
 	}
+	dst.Observed = append(dst.Observed, src.Observed...)
 }
 
 func ptrInt(p *value) uintptr { return uintptr(unsafe.Pointer(p)) }
@@ -734,6 +738,9 @@ func (w *Worker) SetParams(p map[string]int) { w.i.params = p }
 // FuelIsViolation: exhausting the instruction budget is reported as a
 // non-termination candidate (replayed natively under a watchdog) instead of inconclusive.
 func (w *Worker) FuelIsViolation(b bool) { w.i.fuelIsViolation = b }
+
+// CollectObserved keeps every symx.Observe line of every path in Stats.Observed (selftest).
+func (w *Worker) CollectObserved(b bool) { w.i.collectObserved = b }
 
 // EnableScheduler switches on the bounded thread scheduler for this worker.
 func (w *Worker) EnableScheduler(maxPreempt int) {
